@@ -115,9 +115,63 @@ def json_ws_cases(tier, rng, escalate):
                        nontrivial=bool(len(docs) >= 2))
 
 
+def conv_cases(tier, rng, escalate):
+    """protocols with a converter (kinds 11/12: StringLineSerializer(ascii) + a converter accepting exactly the non-empty
+    digit strings): frames drawn from {digits, rejected by the converter, undecodable}; both receive paths"""
+    thorough = tier == "thorough" or escalate
+    for sep in (b"\n", b"\r\n"):
+        for _ in range(40 if thorough else 8):
+            limit = rng.choice([12, 16, 24])
+            n = rng.choice([1, 2, 3, 4])
+            frames, kinds = [], []
+            for _i in range(n):
+                k = rng.choice(["digits", "digits", "letters", "empty", "bad"])
+                m = rng.randrange(1, min(5, limit - len(sep) - 1))
+                if k == "digits":
+                    f = bytes(rng.choice(b"0123456789") for _ in range(m))
+                elif k == "letters":
+                    f = bytes(rng.choice(b"ab 1") for _ in range(m - 1)) + b"x"
+                elif k == "empty":
+                    f = b""
+                else:
+                    f = bytes(rng.choice(b"12") for _ in range(m - 1)) + bytes([rng.choice([128, 255])])
+                frames.append(f)
+                kinds.append(k)
+            stream = b"".join(f + sep for f in frames) + rng.choice([b"", b"", b"12"])
+            for kind in (11, 12):
+                hint = rng.choice([1, 2, 3, 8, 64])
+                if len(stream) <= (9 if thorough else 7):
+                    chunkings = list(sc.all_chunkings(stream))
+                else:
+                    chunkings = [[stream], [stream[i:i + 1] for i in range(len(stream))]]
+                    cuts = list(range(1, len(stream)))
+                    for c in (cuts if thorough else rng.sample(cuts, min(len(cuts), 8))):
+                        chunkings.append(sc.cuts_to_chunks(stream, [c]))
+                    for _k in range(4 if thorough else 2):
+                        chunkings.append(sc.cuts_to_chunks(stream, [rng.randrange(1, len(stream)) for _ in range(3)]))
+                for chunks in chunkings:
+                    cfg = [sep, limit, 0] + ([hint] if kind == 12 else [])
+                    yield dict(input=[kind, cfg, 1, chunks, [b"line", b"ascii"], [k.encode() for k in kinds]],
+                               tags=[f"kind{kind}", "converter", f"seplen{len(sep)}", "+".join(sorted(set(kinds)))],
+                               nontrivial=bool(n >= 2 and any(k != "digits" for k in kinds[:-1])))
+
+
+def conv_oracle(inp):
+    kind, cfg, _dec, chunks, impl, kinds = inp[:6]
+    rounds = sc.run_impl(inp)
+    events = [e for r in rounds for e in r[1]]
+    got = ["ok" if e[0] == 0 else ("convert" if e[0] == 1 and e[1] == 2 else "decode" if e[0] == 1 and e[1] == 1 else "other")
+           for e in events]
+    want = [{b"digits": "ok", b"letters": "convert", b"empty": "convert", b"bad": "decode"}[k] for k in kinds]
+    if got != want:
+        return f"converter protocol: events {got} differ from frame-by-frame decoding {want}"
+    return None
+
+
 def cases(tier, rng, escalate):
     yield from json_cases(tier, rng, escalate)
     yield from json_ws_cases(tier, rng, escalate)
+    yield from conv_cases(tier, rng, escalate)
     yield from sep_cases(tier, rng, escalate)
 
 
@@ -194,6 +248,8 @@ def json_oracle(inp):
 def oracle(inp):
     if inp[0] == 4:
         return json_oracle(inp)
+    if inp[0] in (11, 12):
+        return conv_oracle(inp)
     kind, cfg, _dec, chunks, impl = inp[:5]
     sep, limit = cfg[0], cfg[1]
     seplen = len(sep)
